@@ -149,7 +149,7 @@ PROPS = {
                      "DHCPv6 plugins that append (nbp) are judged on responses that do not already carry their option and on request lists without repeated codes (C17.dom6)"],
     ),
     "C19": dict(
-        engines=[("plug", 4000, 60000), ("chain", 1500, 30000), ("sys", 1500, 30000), ("prefix", 2500, 40000), ("file", 1500, 20000)],
+        engines=[("plug", 4000, 60000), ("chain", 1500, 30000), ("sys", 1500, 30000), ("prefix", 2500, 40000), ("file", 1500, 20000), ("range", 1200, 15000)],
         theorems=["C19_setup_wireOK", "C19_setup_wireOK4", "C19_staticroute_rejects_non_ipv4", "C19_routes_roundtrip", "C19_labels_roundtrip", "C19_ips_roundtrip", "C19_bootparams_roundtrip",
                   "C19_oversize6_refuted", "C13_nil_stop_builtin", "C13_nil_stop_builtin6"],
         modules=["CoreDhcp.Props.C19", "CoreDhcp.Props.Builtin"],
